@@ -247,7 +247,10 @@ pub fn decode_c18(data: &[u8]) -> crate::props::c18::Case {
             8 => TokOp::TransferFrom { spender: r.u8() % 8, owner: r.u8() % 5, to: r.u8() % 8, k: r.u8() % 8 },
             9 => TokOp::SendFrom { spender: r.u8() % 8, owner: r.u8() % 5, k: r.u8() % 8 },
             10 => TokOp::BurnFrom { spender: r.u8() % 8, owner: r.u8() % 5, k: r.u8() % 8 },
-            _ => TokOp::Advance { secs: r.u8() % 70 },
+            _ => {
+                let b = r.u8();
+                if b % 4 == 3 { TokOp::AdvanceToExpiry { k: b / 4, off: (r.u8() % 3) as i8 - 1 } } else { TokOp::Advance { secs: b % 70 } }
+            }
         };
         ops.push(op);
     }
